@@ -43,7 +43,7 @@ func main() {
 // ---------------------------------------------------------------- what a child does
 
 type Spec struct {
-	Kind      string   `json:"kind"`                 // "fault" | "leak"
+	Kind      string   `json:"kind"`                 // "fault" | "leak" | "history"
 	Sink      string   `json:"sink"`                 // stl 3mf dxf svg tri
 	Renderer  string   `json:"renderer,omitempty"`   // fault: script mcu octree ms quadtree dc2
 	Cells     int      `json:"cells,omitempty"`      // real renderers: mesh cells
@@ -52,8 +52,27 @@ type Spec struct {
 	Limit     int64    `json:"limit,omitempty"`      // rlimit: RLIMIT_FSIZE in bytes
 	History   []string `json:"history,omitempty"`    // leak: renderer of each successive render
 	CellsHist []int    `json:"cells_hist,omitempty"` // leak: mesh cells of each successive render (default Cells)
+	Steps     []Step   `json:"steps,omitempty"`      // history: one process performs these calls one after the other
+	Warmup    int      `json:"warmup,omitempty"`     // history: the goroutine count must not grow after this many steps
 	TimeoutMs int      `json:"timeout_ms"`
 	Dir       string   `json:"dir,omitempty"` // scratch directory (set by the parent)
+}
+
+// Step is one call of a "history": its own entry point, renderer and (failing) target.
+type Step struct {
+	Sink     string `json:"sink"`
+	Renderer string `json:"renderer"`
+	Cells    int    `json:"cells,omitempty"`
+	Target   string `json:"target"`          // ok devfull nodir isdir rlimit
+	Limit    int64  `json:"limit,omitempty"` // rlimit: RLIMIT_FSIZE (soft) during this step only
+}
+
+func (st Step) String() string {
+	s := st.Sink + "/" + st.Renderer + "/" + st.Target
+	if st.Target == "rlimit" {
+		s += fmt.Sprint(st.Limit)
+	}
+	return s
 }
 
 type Result struct {
@@ -103,6 +122,16 @@ func renderer2(name string, cells int, writes []int) render.Render2 {
 }
 
 func usesPool(renderer string) bool { return renderer == "mcu" }
+
+// usesPoolBefore: does one of the first n steps run a pool-using renderer (its output was created)?
+func usesPoolBefore(steps []Step, n int) bool {
+	for _, st := range steps[:n] {
+		if usesPool(st.Renderer) && !((st.Sink == "stl" || st.Sink == "3mf") && (st.Target == "nodir" || st.Target == "isdir")) {
+			return true
+		}
+	}
+	return false
+}
 
 func shape3() sdf.SDF3 { s, _ := sdf.Sphere3D(1.0); return s }
 func shape2() sdf.SDF2 { s, _ := sdf.Circle2D(1.0); return s }
@@ -174,12 +203,34 @@ func childMain(arg string) {
 			emit()
 		}
 	}
+	for _, st := range sp.Steps {
+		if st.Target == "rlimit" {
+			signal.Ignore(syscall.SIGXFSZ)
+		}
+	}
 	done := make(chan struct{})
 	t0 := time.Now()
 	var path string
 	go func() {
 		defer close(done)
 		switch sp.Kind {
+		case "history":
+			res.Base = settledGoroutines()
+			for i, st := range sp.Steps {
+				// the file-size limit of this step only (soft limit; the hard limit stays unlimited)
+				lim := syscall.Rlimit{Cur: ^uint64(0), Max: ^uint64(0)}
+				if st.Target == "rlimit" {
+					lim.Cur = uint64(st.Limit)
+				}
+				if err := syscall.Setrlimit(syscall.RLIMIT_FSIZE, &lim); err != nil {
+					res.Err = "setrlimit: " + err.Error()
+					return
+				}
+				s2 := sp
+				s2.Sink, s2.Target, s2.Cells = st.Sink, st.Target, st.Cells
+				callSink(&s2, st.Renderer, targetPath(&s2, i))
+				res.Goroutines = append(res.Goroutines, settledGoroutines())
+			}
 		case "fault":
 			path = targetPath(&sp, 0)
 			callSink(&sp, sp.Renderer, path)
@@ -203,6 +254,14 @@ func childMain(arg string) {
 		for _, g := range strings.Split(st, "\n\n") {
 			if strings.Contains(g, "chan send") && (strings.Contains(g, "Buffer).Write") || strings.Contains(g, "Buffer).Close")) {
 				res.Blocked = "renderer blocked in chan send inside " + map[bool]string{true: "Write", false: "Close"}[strings.Contains(g, "Buffer).Write")]
+			}
+		}
+		if res.Blocked == "" {
+			// the goroutine performing the call: its state and innermost frame
+			for _, g := range strings.Split(st, "\n\n") {
+				if ls := strings.Split(g, "\n"); strings.Contains(g, "main.callSink") && len(ls) > 1 {
+					res.Blocked = strings.TrimSuffix(ls[0], ":") + " in " + strings.TrimSpace(ls[1])
+				}
 			}
 		}
 		if res.Blocked == "" {
@@ -287,7 +346,33 @@ func optNat(v int64) string {
 	return fmt.Sprintf("(Some %d)", v)
 }
 
+func stepsKey(steps []Step) string {
+	var parts []string
+	for i := 0; i < len(steps); {
+		j := i
+		for j < len(steps) && steps[j] == steps[i] {
+			j++
+		}
+		if j-i == 1 {
+			parts = append(parts, steps[i].String())
+		} else {
+			parts = append(parts, fmt.Sprintf("%sx%d", steps[i], j-i))
+		}
+		i = j
+	}
+	k := strings.Join(parts, ",")
+	if len(k) > 160 {
+		h := fnv.New32a()
+		h.Write([]byte(k))
+		k = fmt.Sprintf("%.120s...#%d-steps/%08x", k, len(steps), h.Sum32())
+	}
+	return k
+}
+
 func specKey(sp Spec) string {
+	if sp.Kind == "history" {
+		return fmt.Sprintf("history warmup=%d steps=%s", sp.Warmup, stepsKey(sp.Steps))
+	}
 	if sp.Kind == "leak" {
 		var parts []string
 		for i := 0; i < len(sp.History); {
@@ -546,6 +631,59 @@ func checkC12(c *Ctx, r *Report) error {
 		leak("dxf", hist("ms", K), 20)
 		leak("svg", hist("quadtree", K), 20)
 		leak("dxf", hist("dc2", K), 20)
+
+		// ---- histories of FAILING calls in one process: every entry point x every failure kind.
+		// After a warm-up (one good call, one failing call) the same failing call is repeated, then
+		// good calls of every entry point of that dimension follow: every call must return and the
+		// goroutine count must stay where it was after the warm-up.
+		R := TierN(c.Tier, 40, 120, 60)
+		fails := []Step{{Target: "nodir"}, {Target: "isdir"}, {Target: "devfull"},
+			{Target: "rlimit", Limit: 0}, {Target: "rlimit", Limit: 100}, {Target: "rlimit", Limit: 4096}, {Target: "rlimit", Limit: 20000}}
+		if c.Tier != "quick" {
+			for k := 0; k < 6; k++ {
+				fails = append(fails, Step{Target: "rlimit", Limit: int64(rng.Intn(60000))})
+			}
+		}
+		goods := map[bool][]string{true: {"stl", "3mf", "tri"}, false: {"dxf", "svg"}}
+		for _, sink := range []string{"stl", "3mf", "dxf", "svg"} {
+			d3 := is3D("", sink)
+			for fi, f := range fails {
+				renderer, cells := "script", 0
+				if fi%3 == 2 { // a real renderer now and then
+					renderer, cells = map[bool]string{true: "mcu", false: "ms"}[d3], 10
+				}
+				f.Sink, f.Renderer, f.Cells = sink, renderer, cells
+				steps := []Step{{Sink: sink, Renderer: renderer, Cells: cells, Target: "ok"}, f}
+				for k := 0; k < R; k++ {
+					steps = append(steps, f)
+				}
+				for k := 0; k < 2; k++ {
+					for _, g := range goods[d3] {
+						steps = append(steps, Step{Sink: g, Renderer: renderer, Cells: cells, Target: "ok"})
+					}
+				}
+				specs = append(specs, Spec{Kind: "history", Steps: steps, Warmup: 2})
+			}
+			// all failure kinds and both entry points of the dimension mixed
+			var steps []Step
+			for _, g := range goods[d3] {
+				steps = append(steps, Step{Sink: g, Renderer: "script", Target: "ok"})
+			}
+			for _, f := range fails {
+				f.Sink, f.Renderer = sink, "script"
+				steps = append(steps, f)
+			}
+			w := len(steps)
+			for k := 0; k < R; k++ {
+				f := fails[rng.Intn(len(fails))]
+				f.Sink, f.Renderer = goods[d3][rng.Intn(2)], "script"
+				steps = append(steps, f)
+			}
+			for _, g := range goods[d3] {
+				steps = append(steps, Step{Sink: g, Renderer: "script", Target: "ok"})
+			}
+			specs = append(specs, Spec{Kind: "history", Steps: steps, Warmup: w})
+		}
 	}
 
 	// ---- run the children (a few at a time)
@@ -558,7 +696,7 @@ func checkC12(c *Ctx, r *Report) error {
 		}
 		specs[i].Dir = filepath.Join(scratch, fmt.Sprint(i))
 		os.MkdirAll(specs[i].Dir, 0o755)
-		if specs[i].Kind == "leak" && specs[i].Writes == nil {
+		if (specs[i].Kind == "leak" || specs[i].Kind == "history") && specs[i].Writes == nil {
 			specs[i].Writes = []int{tN, 5}
 		}
 		wg.Add(1)
@@ -588,6 +726,7 @@ func checkC12(c *Ctx, r *Report) error {
 	id := 0
 	hung, returned := 0, 0
 	poolExact, poolCases := 0, 0
+	histories := 0
 	for i, sp := range specs {
 		res := results[i]
 		key := specKey(sp)
@@ -649,6 +788,49 @@ func checkC12(c *Ctx, r *Report) error {
 			if id%37 == 1 {
 				r.Sample(map[string]interface{}{"case": key, "returned": res.Returned, "ms": res.Ms, "count": res.Count, "file_size": res.FileSize})
 			}
+		case "history":
+			r.Case("history/"+sp.Steps[sp.Warmup-1].String(), key, true)
+			histories++
+			if !res.Returned || len(res.Goroutines) != len(sp.Steps) {
+				k := len(res.Goroutines)
+				what := fmt.Sprintf("call %d of a history of %d calls in one process did not return within %d ms", k+1, len(sp.Steps), sp.TimeoutMs)
+				if k < len(sp.Steps) {
+					what += fmt.Sprintf(": To%s(%s renderer, target %s) after the calls %s; %s", strings.ToUpper(sp.Steps[k].Sink), sp.Steps[k].Renderer, sp.Steps[k].Target, stepsKey(sp.Steps[:k]), res.Blocked)
+				}
+				r.Violate(key, what, clean)
+				continue
+			}
+			hb := make([]string, 0, len(sp.Steps))
+			for k, st := range sp.Steps {
+				hb = append(hb, CB(usesPool(st.Renderer)))
+				if k%8 != 7 && k != len(sp.Steps)-1 {
+					continue
+				}
+				id++
+				extra := res.Goroutines[k] - res.Base
+				if extra < 0 {
+					extra = 0
+				}
+				cg.Add(fmt.Sprintf("(%d%%N, %d, %s, %d)", id, res.NumCPU, CList(hb), extra))
+				poolCases++
+			}
+			// flat after the warm-up
+			warm := res.Goroutines[sp.Warmup-1]
+			for k := sp.Warmup; k < len(sp.Steps); k++ {
+				// a pool-using renderer may start the pool later than the warm-up (when its earlier calls could not create their file)
+				allowed := warm
+				if !usesPoolBefore(sp.Steps, sp.Warmup) && usesPoolBefore(sp.Steps, k+1) {
+					allowed += res.NumCPU
+				}
+				if res.Goroutines[k] > allowed {
+					r.Violate(key, fmt.Sprintf("goroutines accumulate over repeated calls: %d before the history, %d after the warm-up (%d calls), %d after call %d (%s); counts after each call: %v (NumCPU=%d)",
+						res.Base, warm, sp.Warmup, res.Goroutines[k], k+1, sp.Steps[k], res.Goroutines, res.NumCPU), clean)
+					break
+				}
+			}
+			if histories%9 == 1 {
+				r.Sample(map[string]interface{}{"case": key, "base": res.Base, "goroutines_after_warmup": warm, "goroutines_at_end": res.Goroutines[len(res.Goroutines)-1]})
+			}
 		case "leak":
 			r.Case(stratum, key, true)
 			if !res.Returned || len(res.Goroutines) != len(sp.History) {
@@ -692,10 +874,11 @@ func checkC12(c *Ctx, r *Report) error {
 	}
 	r.Coverage["calls_returned"] = returned
 	r.Coverage["calls_hung"] = hung
+	r.Coverage["histories_of_failing_calls"] = histories
 	r.Coverage["goroutine_observations"] = poolCases
 	r.Coverage["goroutine_observations_equal_to_model"] = poolExact
 	r.Coverage["model_compared"] = map[bool]string{true: "pinned (reproduction run)", false: "repaired"}[model == "pinned"]
-	r.Rule = "fault cases: one child process per (sink, renderer, target); scripted renderers write numbered items in the given Write sizes through the real sdf buffers, real renderers (marching cubes uniform/octree, marching squares uniform/quadtree, dual contouring 2d) render a unit sphere/circle; targets: writable file, /dev/full, missing directory, a directory, RLIMIT_FSIZE with SIGXFSZ ignored at every 4096-byte flush boundary of the STL writer (+-1 byte, and below the header size). Observed: returned within the time limit or not (with the blocked frame), STL header count. leak cases: one child per history of k renders, runtime.NumGoroutine() (settled) after each render minus before the first. Non-trivial = a failing target with at least one item, or a leak history; distinct by the spec."
+	r.Rule = "fault cases: one child process per (sink, renderer, target); scripted renderers write numbered items in the given Write sizes through the real sdf buffers, real renderers (marching cubes uniform/octree, marching squares uniform/quadtree, dual contouring 2d) render a unit sphere/circle; targets: writable file, /dev/full, missing directory, a directory, RLIMIT_FSIZE with SIGXFSZ ignored at every 4096-byte flush boundary of the STL writer (+-1 byte, and below the header size). Observed: returned within the time limit or not (with the blocked frame), STL header count. leak cases: one child per history of k renders, runtime.NumGoroutine() (settled) after each render minus before the first. history cases: one child performs a warm-up (a good call, a failing call), then the same failing call R times (R=40 quick), then good calls of every entry point of that dimension, for every entry point (ToSTL, To3MF, ToDXF, ToSVG) x failure kind (missing directory, path is a directory, /dev/full, RLIMIT_FSIZE soft limit 0/100/4096/20000 set for that call only), scripted and real renderers, plus mixed histories; every call must return and the goroutine count must not exceed its value after the warm-up. Non-trivial = a failing target with at least one item, or a leak history; distinct by the spec."
 	r.Trusted = append(r.Trusted,
 		"hand model coq/Sys/Pipeline.v of the ToXXX / writer-goroutine protocol and of the evalRoutines pool, tied by differential execution (cases_fault_*.v, cases_goroutines_*.v)",
 		"'does not return' is observed as 'not returned after "+fmt.Sprint(timeout)+" ms' plus the goroutine dump of the child; the operating system is not modelled",
